@@ -4,6 +4,7 @@ package main
 
 import (
 	"fmt"
+	"go/ast"
 	"go/token"
 	"go/types"
 	"sort"
@@ -1205,6 +1206,1487 @@ func walkersEmitStorageID(p *Prog) (out []gFinding) {
 		}
 		out = append(out, gFinding{Key: key, Pos: p.Pos(emits[0].Pos()), OK: bad == "",
 			Detail: "the walk can return successfully (" + bad + ") without handing on the storage's UID: the digest of an MSI covers the class id of every storage after its contents, empty storages included, so the tar form and the direct form of the digest differ for a package with such a storage and the file relic has just signed fails verification"})
+	}
+	return out
+}
+
+// ------------------------------------------------------------------------------ R07i / R16j
+
+// cmsListsKeepOrder: encoding/asn1 sorts the elements of a field tagged `set` when it marshals.
+// The certificate and CRL lists of SignedData are emitted in the order the builder put them in
+// (leaf first) and re-emitted in the order they were parsed in: their tags carry no `set`.
+func cmsListsKeepOrder(p *Prog) (out []gFinding) {
+	pk := p.Pkg("lib/pkcs7")
+	if pk == nil {
+		return []gFinding{{Key: "lib/pkcs7", Pos: "-", OK: false, Detail: "package not found"}}
+	}
+	obj := pk.Types.Scope().Lookup("SignedData")
+	if obj == nil {
+		return []gFinding{{Key: "pkcs7.SignedData", Pos: "-", OK: false, Detail: "type not found"}}
+	}
+	st, ok := obj.Type().Underlying().(*types.Struct)
+	if !ok {
+		return []gFinding{{Key: "pkcs7.SignedData", Pos: "-", OK: false, Detail: "not a struct"}}
+	}
+	n := 0
+	for i := 0; i < st.NumFields(); i++ {
+		f := st.Field(i)
+		if f.Name() != "Certificates" && f.Name() != "CRLs" {
+			continue
+		}
+		n++
+		tag := reflectTag(st.Tag(i), "asn1")
+		isSet := false
+		for _, part := range strings.Split(tag, ",") {
+			if strings.TrimSpace(part) == "set" {
+				isSet = true
+			}
+		}
+		out = append(out, gFinding{Key: "pkcs7.SignedData." + f.Name() + " is marshalled in the order given", Pos: p.Pos(f.Pos()), OK: !isSet,
+			Detail: "the field is tagged `set`: encoding/asn1 sorts the elements of a SET OF by their encoding when it marshals, so the emitted certificate list no longer begins with the signer's certificate (consumers that take the first certificate as the signer pair the signature with a CA certificate) and a parsed structure is re-emitted in another order than it was read in"})
+	}
+	if n != 2 {
+		out = append(out, gFinding{Key: "pkcs7.SignedData has Certificates and CRLs", Pos: p.Pos(obj.Pos()), OK: false, Detail: fmt.Sprintf("%d of the two fields found", n)})
+	}
+	return out
+}
+
+func reflectTag(tag, key string) string {
+	// a minimal reflect.StructTag.Get
+	for tag != "" {
+		i := 0
+		for i < len(tag) && tag[i] == ' ' {
+			i++
+		}
+		tag = tag[i:]
+		if tag == "" {
+			break
+		}
+		i = 0
+		for i < len(tag) && tag[i] > ' ' && tag[i] != ':' && tag[i] != '"' {
+			i++
+		}
+		if i == 0 || i+1 >= len(tag) || tag[i] != ':' || tag[i+1] != '"' {
+			break
+		}
+		name := tag[:i]
+		tag = tag[i+1:]
+		i = 1
+		for i < len(tag) && tag[i] != '"' {
+			if tag[i] == '\\' {
+				i++
+			}
+			i++
+		}
+		if i >= len(tag) {
+			break
+		}
+		val := tag[1:i]
+		tag = tag[i+1:]
+		if name == key {
+			return val
+		}
+	}
+	return ""
+}
+
+// ------------------------------------------------------------------------------ R10k
+
+// keyTimestampSettingsAsConfigured: whether a key's signatures are timestamped is what the
+// configuration says for that key. Config.GetKey hands out the entry of Config.Keys itself (for an
+// alias: the entry of the key it points to), never an edited copy, and nothing in the module
+// assigns KeyConfig.Timestamp or KeyConfig.Timestamper.
+func keyTimestampSettingsAsConfigured(p *Prog) (out []gFinding) {
+	gk := p.Func("config.(*Config).GetKey")
+	if gk == nil {
+		return []gFinding{{Key: "(*Config).GetKey", Pos: "-", OK: false, Detail: "function not found"}}
+	}
+	n := 0
+	for _, r := range p.successReturns(gk) {
+		for _, lf := range phiLeaves(retVal(r, 0), nil, map[*ssa.Phi]bool{}) {
+			n++
+			fromTable := false
+			v := lf.V
+			if ex, ok := v.(*ssa.Extract); ok {
+				v = ex.Tuple
+			}
+			if lk, ok := v.(*ssa.Lookup); ok {
+				if _, f, _ := p.fieldLoad(lk.X); f == "Keys" {
+					fromTable = true
+				}
+			}
+			out = append(out, gFinding{Key: fmt.Sprintf("(*Config).GetKey returns an entry of the configured key table #%d", n), Pos: p.Pos(r.Pos()), OK: fromTable,
+				Detail: "GetKey can return something other than an entry of Config.Keys (" + describeVal(p, lf.V) + "): a copy edited on the way out can differ from the configured key in whether and where its signatures are timestamped - an alias that does not repeat `timestamp: true` then signs without a timestamp and nothing reports it"})
+		}
+	}
+	if n == 0 {
+		out = append(out, gFinding{Key: "(*Config).GetKey has a success return", Pos: p.Pos(gk.Pos()), OK: false, Detail: "none found"})
+	}
+	m := 0
+	for _, fn := range p.Funcs {
+		for _, b := range fn.Blocks {
+			for _, in := range b.Instrs {
+				st, ok := in.(*ssa.Store)
+				if !ok {
+					continue
+				}
+				tn, f, _ := p.fieldAddr(st.Addr)
+				if tn != "config.KeyConfig" || (f != "Timestamp" && f != "Timestamper") {
+					continue
+				}
+				m++
+				out = append(out, gFinding{Key: fmt.Sprintf("%s assigns KeyConfig.%s#%d", p.FName(fn), f, m), Pos: p.Pos(st.Pos()), OK: false,
+					Detail: "a key's timestamp setting is assigned in code (only the configuration loader's unmarshalling fills it): the key is then signed with or without a timestamp regardless of what was configured for it"})
+			}
+		}
+	}
+	return out
+}
+
+// ------------------------------------------------------------------------------ R02m
+
+// wrongErrorExceptions: sites of R02m that were read and found unreachable, one symbol each.
+var wrongErrorExceptions = map[string]string{
+	"cmdline/verify.verifyOne#1": "`return err` after magic.Decompress failed returns the nil error of OpenFile, but the branch cannot be taken: Decompress fails only for a compression other than none, the branch is entered only for signers with a VerifyStream (pgp, appmanifest), and DetectCompressed reports a compressed file only as a tar-based type or as unknown, neither of which selects those signers. Latent, not demonstrable; noted in DESIGN 9.3",
+}
+
+// failureReturnsNilError: in the branch taken because one call failed (its error is non-nil), the
+// function returns, as its error, another error value that is known to be nil on that path (it was
+// tested and found nil on every way there). The failure is reported as success: the wrong variable
+// was returned.
+func failureReturnsNilError(p *Prog) (out []gFinding) {
+	for _, fn := range p.Funcs {
+		ei := errResultIndex(fn.Signature)
+		if ei < 0 || len(fn.Blocks) == 0 {
+			continue
+		}
+		n := 0
+		for _, r := range returnsOf(fn) {
+			if ei >= len(r.Results) {
+				continue
+			}
+			rv := stripConv(retVal(r, ei))
+			if isNilConst(rv) || !isErrorType(rv.Type()) {
+				continue
+			}
+			// the return sits in a region entered because some OTHER error value was non-nil
+			var failed ssa.Value
+			for _, b := range fn.Blocks {
+				ifi, ok := b.Instrs[len(b.Instrs)-1].(*ssa.If)
+				if !ok || !b.Dominates(r.Block()) || b == r.Block() {
+					continue
+				}
+				for si, truth := range []bool{true, false} {
+					if !(b.Succs[si] == r.Block() || b.Succs[si].Dominates(r.Block())) || (b.Succs[1-si] == r.Block() || b.Succs[1-si].Dominates(r.Block())) {
+						continue
+					}
+					for _, f := range factsOf(ifi.Cond, truth) {
+						if f.Kind == NonNil && isErrorType(f.V.Type()) && stripConv(f.V) != rv {
+							if _, isEx := stripConv(f.V).(*ssa.Extract); isEx {
+								failed = stripConv(f.V)
+							} else if _, isCall := stripConv(f.V).(*ssa.Call); isCall {
+								failed = stripConv(f.V)
+							}
+						}
+					}
+				}
+			}
+			if failed == nil {
+				continue
+			}
+			// only plain results of calls (not phis that may carry the failed value)
+			switch rv.(type) {
+			case *ssa.Extract, *ssa.Call:
+			default:
+				continue
+			}
+			n++
+			g := Guard{Name: "returned error == nil", Match: func(f Fact) bool { return f.Kind == IsNil && stripConv(f.V) == rv }}
+			missing, _ := p.unguardedFromEntry(fn, r, g)
+			knownNil := len(missing) == 0
+			key := fmt.Sprintf("%s failure branch#%d returns the error that failed", p.FName(fn), n)
+			if why, ok := wrongErrorExceptions[fmt.Sprintf("%s#%d", p.FName(fn), n)]; ok && knownNil {
+				out = append(out, gFinding{Key: key, Pos: p.Pos(r.Pos()), OK: true, Detail: "exception: " + why})
+				continue
+			}
+			out = append(out, gFinding{Key: key, Pos: p.Pos(r.Pos()), OK: !knownNil,
+				Detail: "this return is reached because " + describeVal(p, failed) + " is non-nil, but what it returns as the error is another value that was tested and found nil on every way here: the failure is reported as success (the wrong error variable is returned)"})
+		}
+	}
+	return out
+}
+
+// ------------------------------------------------------------------------------ R11q
+
+// tailCutGuarded: x[:len(x)-k] and x[len(x)-k:] with a positive constant k need x to be at least k
+// long: on every path some test of len(x) (any comparison), a HasSuffix / HasPrefix / Equal test of
+// x, or a range over x stands in front of it; buffers of fixed or constant size are exempt.
+func tailCutGuarded(p *Prog, within map[*ssa.Function]bool) (out []gFinding) {
+	for _, fn := range p.Funcs {
+		if within != nil && !within[fn] && !within[p.Outer(fn)] {
+			continue
+		}
+		n := 0
+		for _, b := range fn.Blocks {
+			for _, in := range b.Instrs {
+				sl, ok := in.(*ssa.Slice)
+				if !ok {
+					continue
+				}
+				for _, bound := range []ssa.Value{sl.Low, sl.High} {
+					if bound == nil {
+						continue
+					}
+					sub, ok := stripIntConv(bound).(*ssa.BinOp)
+					if !ok || sub.Op != token.SUB {
+						continue
+					}
+					k, isC := constInt(sub.Y)
+					if isC && k <= 0 {
+						continue
+					}
+					if !isC {
+						// the length of another string (a suffix to remove): same obligation, size unknown
+						yc, ok := stripIntConv(sub.Y).(*ssa.Call)
+						if !ok {
+							continue
+						}
+						if bi, ok := yc.Call.Value.(*ssa.Builtin); !ok || bi.Name() != "len" {
+							continue
+						}
+						k = 1 << 30
+					}
+					lc, ok := stripIntConv(sub.X).(*ssa.Call)
+					if !ok {
+						continue
+					}
+					if bi, ok := lc.Call.Value.(*ssa.Builtin); !ok || bi.Name() != "len" {
+						continue
+					}
+					x := lc.Call.Args[0]
+					if !sameBuffer(x, sl.X) {
+						continue
+					}
+					if fixedSize(x) >= k {
+						continue
+					}
+					if ex, ok := stripConv(x).(*ssa.Extract); ok && k == 1 && ex.Index == 0 {
+						if c, ok := ex.Tuple.(*ssa.Call); ok {
+							switch p.calleeName(c.Common()) {
+							case "(*bufio.Reader).ReadString", "(*bufio.Reader).ReadBytes":
+								// with a nil error the result ends in the delimiter: at least one byte
+								eg := p.callGuard("read err==nil", []string{p.calleeName(c.Common())}, 1, IsNil, func(ci ssa.CallInstruction) bool { return ci == ssa.CallInstruction(c) })
+								if missing, _ := p.unguardedFromEntry(fn, sl, eg); len(missing) == 0 {
+									continue
+								}
+							}
+						}
+					}
+					n++
+					g := Guard{Name: "length of the buffer tested", Match: func(f Fact) bool {
+						return dependsOnNoCallArgs2(f.V, func(y ssa.Value) bool {
+							c, ok := y.(*ssa.Call)
+							if !ok {
+								return false
+							}
+							if bi, ok := c.Call.Value.(*ssa.Builtin); ok && bi.Name() == "len" {
+								return sameBuffer(c.Call.Args[0], x)
+							}
+							switch p.calleeName(c.Common()) {
+							case "strings.HasSuffix", "strings.HasPrefix", "bytes.HasSuffix", "bytes.HasPrefix", "bytes.Equal", "strings.EqualFold":
+								return sameBuffer(c.Call.Args[0], x)
+							}
+							return false
+						})
+					}}
+					missing, path := p.unguardedFromEntry(fn, sl, g)
+					// a comparison x == "literal" / x != "" also fixes the length
+					if len(missing) > 0 {
+						g2 := Guard{Name: "compared with a constant", Match: func(f Fact) bool {
+							bo, ok := f.V.(*ssa.BinOp)
+							if !ok || (bo.Op != token.EQL && bo.Op != token.NEQ) {
+								return false
+							}
+							return sameBuffer(bo.X, x) || sameBuffer(bo.Y, x)
+						}}
+						missing, path = p.unguardedFromEntry(fn, sl, g2)
+					}
+					out = append(out, gFinding{Key: fmt.Sprintf("%s tail cut#%d of %s bytes is behind a length test", p.FName(fn), n, cutSize(k)), Pos: p.Pos(sl.Pos()), OK: len(missing) == 0, Path: path,
+						Detail: fmt.Sprintf("%s bytes are cut off relative to the end of a buffer whose length no test on the way here has looked at: a shorter buffer panics with a negative slice bound, and whatever those bytes are, they are dropped unseen", cutSize(k))})
+				}
+			}
+		}
+	}
+	return out
+}
+
+func sameBuffer(a, b ssa.Value) bool {
+	a, b = stripConv(a), stripConv(b)
+	if a == b {
+		return true
+	}
+	// two loads of the same cell / field
+	la, ok1 := a.(*ssa.UnOp)
+	lb, ok2 := b.(*ssa.UnOp)
+	if ok1 && ok2 && la.Op == token.MUL && lb.Op == token.MUL {
+		if la.X == lb.X {
+			return true
+		}
+		fa, ok1 := la.X.(*ssa.FieldAddr)
+		fb, ok2 := lb.X.(*ssa.FieldAddr)
+		if ok1 && ok2 && fa.X == fb.X && fa.Field == fb.Field {
+			return true
+		}
+	}
+	return false
+}
+
+// fixedSize: the length of x when it is a constant (array, make with a constant, string constant), else 0.
+func fixedSize(x ssa.Value) int64 {
+	x = stripConv(x)
+	if c, ok := x.(*ssa.Const); ok {
+		if s, ok := constString(c); ok {
+			return int64(len(s))
+		}
+	}
+	switch y := x.(type) {
+	case *ssa.MakeSlice:
+		if k, ok := constInt(y.Len); ok {
+			return k
+		}
+	case *ssa.Slice:
+		t := y.X.Type().Underlying()
+		if pt, ok := t.(*types.Pointer); ok {
+			if at, ok := pt.Elem().Underlying().(*types.Array); ok && y.High == nil && y.Low == nil {
+				return at.Len()
+			}
+		}
+		if y.Low == nil {
+			if k, ok := constInt(y.High); ok {
+				return 0*k + 0 // x[:k] panics itself when too short; not a proof of length for the base
+			}
+		}
+	}
+	if at, ok := x.Type().Underlying().(*types.Array); ok {
+		return at.Len()
+	}
+	return 0
+}
+
+func dependsOnNoCallArgs2(v ssa.Value, pred func(ssa.Value) bool) bool {
+	seen := map[ssa.Value]bool{}
+	var walk func(v ssa.Value, d int) bool
+	walk = func(v ssa.Value, d int) bool {
+		if v == nil || seen[v] || d > 12 {
+			return false
+		}
+		seen[v] = true
+		if pred(v) {
+			return true
+		}
+		switch x := v.(type) {
+		case *ssa.BinOp:
+			return walk(x.X, d+1) || walk(x.Y, d+1)
+		case *ssa.UnOp:
+			return walk(x.X, d+1)
+		case *ssa.Convert:
+			return walk(x.X, d+1)
+		case *ssa.Phi:
+			for _, e := range x.Edges {
+				if walk(e, d+1) {
+					return true
+				}
+			}
+		}
+		return false
+	}
+	return walk(v, 0)
+}
+
+func cutSize(k int64) string {
+	if k >= 1<<30 {
+		return "len(suffix)"
+	}
+	return fmt.Sprint(k)
+}
+
+// ------------------------------------------------------------------------------ R02o
+
+// plistCoversEveryDirectory: the signed list of code-directory hashes has to account for every code
+// directory of the blob: checkPlistHashes accepts only behind a test that the list is as long as the
+// set of directories it compares it with. Matching each listed hash against some directory is not
+// enough - an appended, unlisted directory would be trusted (the verifier checks page hashes against
+// the strongest directory present).
+func plistCoversEveryDirectory(p *Prog) (out []gFinding) {
+	fn := p.Func("lib/fruit/csblob.checkPlistHashes")
+	if fn == nil {
+		return []gFinding{{Key: "csblob.checkPlistHashes", Pos: "-", OK: false, Detail: "function not found"}}
+	}
+	um := p.callsIn(fn, "howett.net/plist.Unmarshal")
+	if len(um) != 1 {
+		return []gFinding{{Key: "checkPlistHashes decodes the signed list", Pos: p.Pos(fn.Pos()), OK: false, Detail: fmt.Sprintf("%d plist.Unmarshal calls, expected 1", len(um))}}
+	}
+	isLenOfList := func(v ssa.Value) bool {
+		c, ok := stripIntConv(v).(*ssa.Call)
+		if !ok {
+			return false
+		}
+		if bi, ok := c.Call.Value.(*ssa.Builtin); !ok || bi.Name() != "len" {
+			return false
+		}
+		_, f, _ := p.fieldLoad(c.Call.Args[0])
+		return f == "CDHashes"
+	}
+	isLen := func(v ssa.Value) bool {
+		c, ok := stripIntConv(v).(*ssa.Call)
+		if !ok {
+			return false
+		}
+		bi, ok := c.Call.Value.(*ssa.Builtin)
+		return ok && bi.Name() == "len"
+	}
+	g := Guard{Name: "len(CDHashes) == number of directories", Match: func(f Fact) bool {
+		bo, ok := f.V.(*ssa.BinOp)
+		if !ok {
+			return false
+		}
+		if !((isLenOfList(bo.X) && isLen(bo.Y)) || (isLenOfList(bo.Y) && isLen(bo.X))) {
+			return false
+		}
+		return (bo.Op == token.EQL && f.Kind == IsTrue) || (bo.Op == token.NEQ && f.Kind == IsFalse)
+	}}
+	del := passEdges(fn, g)
+	n := 0
+	for _, r := range p.successReturns(fn) {
+		if !reachableAfter(fn, um[0], r, nil, nil) {
+			continue
+		}
+		n++
+		pred := map[int]int{}
+		bad := reachAfter(fn, um[0], del, pred)[r.Block().Index]
+		var path []string
+		if bad {
+			path = p.witness(fn, pred, r.Block().Index)
+		}
+		out = append(out, gFinding{Key: fmt.Sprintf("checkPlistHashes accepts only a list as long as the set of code directories #%d", n), Pos: p.Pos(r.Pos()), OK: !bad, Path: path,
+			Detail: "the signed hash list is accepted without a test that it has one entry per code directory: a code directory appended to the blob and not listed is not noticed, and since page hashes are checked against the strongest directory present, changed code with a matching unsigned directory verifies under the original signature"})
+	}
+	if n == 0 {
+		out = append(out, gFinding{Key: "checkPlistHashes can accept a list", Pos: p.Pos(fn.Pos()), OK: false, Detail: "no success return after the list is decoded"})
+	}
+	return out
+}
+
+// ------------------------------------------------------------------------------ R02p
+
+// verifyCommandChecksEveryChain: for every signature the verify command reports, the certificate
+// chain was verified by this very iteration, unless the signature has no X.509 part or chains were
+// switched off: no other condition lets an iteration go round VerifyChain.
+func verifyCommandChecksEveryChain(p *Prog) (out []gFinding) {
+	fn := p.Func("cmdline/verify.verifyOne")
+	if fn == nil {
+		return []gFinding{{Key: "cmdline/verify.verifyOne", Pos: "-", OK: false, Detail: "function not found"}}
+	}
+	var calls []ssa.CallInstruction
+	for _, b := range fn.Blocks {
+		for _, in := range b.Instrs {
+			if ci, ok := in.(ssa.CallInstruction); ok {
+				if sc := ci.Common().StaticCallee(); sc != nil && sc.Name() == "VerifyChain" {
+					calls = append(calls, ci)
+				}
+			}
+		}
+	}
+	if len(calls) == 0 {
+		return []gFinding{{Key: "verifyOne verifies certificate chains", Pos: p.Pos(fn.Pos()), OK: false, Detail: "no VerifyChain call"}}
+	}
+	for i, vc := range calls {
+		// the loop the call sits in: its header holds the Next that yields the signature
+		var header *ssa.BasicBlock
+		for _, b := range fn.Blocks {
+			if b == vc.Block() || !b.Dominates(vc.Block()) || len(b.Succs) != 2 {
+				continue
+			}
+			// a loop header: the call's block leads back to it
+			if !reach(fn, vc.Block().Succs, nil, nil)[b.Index] {
+				continue
+			}
+			if header == nil || b.Dominates(header) {
+				header = b
+			}
+		}
+		key := fmt.Sprintf("verifyOne VerifyChain#%d runs for every signature with a certificate unless chains are off", i+1)
+		if header == nil || len(header.Succs) != 2 {
+			out = append(out, gFinding{Key: key, Pos: p.Pos(vc.Pos()), OK: false, Detail: "the call is not inside a range loop over the signatures"})
+			continue
+		}
+		body := header.Succs[0]
+		if !(body == vc.Block() || body.Dominates(vc.Block())) {
+			body = header.Succs[1]
+		}
+		del := map[edge]bool{}
+		// passing the call with a nil error
+		okg := Guard{Name: "VerifyChain err==nil", Match: func(f Fact) bool {
+			return f.Kind == IsNil && stripConv(f.V) == ssa.Value(vc.(*ssa.Call))
+		}}
+		for e := range passEdges(fn, okg) {
+			del[e] = true
+		}
+		// the two legitimate ways round it
+		for _, b := range fn.Blocks {
+			ifi, ok := b.Instrs[len(b.Instrs)-1].(*ssa.If)
+			if !ok {
+				continue
+			}
+			for si, truth := range []bool{true, false} {
+				for _, f := range factsOf(ifi.Cond, truth) {
+					_, fld, _ := p.fieldLoad(f.V)
+					if (fld == "X509Signature" && f.Kind == IsNil) || (fld == "NoChain" && f.Kind == IsTrue) {
+						del[edge{b.Index, si}] = true
+					}
+				}
+			}
+		}
+		pred := map[int]int{}
+		seen := reach(fn, []*ssa.BasicBlock{body}, del, pred)
+		bad := seen[header.Index]
+		var path []string
+		if bad {
+			path = p.witness(fn, pred, header.Index)
+		}
+		out = append(out, gFinding{Key: key, Pos: p.Pos(vc.Pos()), OK: !bad, Path: path,
+			Detail: "an iteration over a signature can finish (and print OK) without VerifyChain having returned nil for it, for a reason other than the signature having no certificate or --no-chain: a verdict carried over from another file or signature (a cache keyed by issuer and serial, say) lets a lookalike certificate from an untrusted authority pass"})
+	}
+	return out
+}
+
+// ------------------------------------------------------------------------------ R09m
+
+// blockerCloseBlocks: compresshttp's readBlocker exists so that the compressor goroutine of a
+// finished attempt cannot go on reading the shared input file while the next attempt re-reads it.
+// Its Close therefore sets the closed flag on every path on which it can return nil.
+func blockerCloseBlocks(p *Prog) (out []gFinding) {
+	fn := p.Func("lib/compresshttp.(*readBlocker).Close")
+	if fn == nil {
+		return []gFinding{{Key: "(*readBlocker).Close", Pos: "-", OK: false, Detail: "function not found"}}
+	}
+	var sets []ssa.Instruction
+	for _, b := range fn.Blocks {
+		for _, in := range b.Instrs {
+			switch x := in.(type) {
+			case ssa.CallInstruction:
+				n := p.calleeName(x.Common())
+				if strings.HasPrefix(n, "sync/atomic.Store") || strings.HasPrefix(n, "sync/atomic.Swap") || strings.HasPrefix(n, "sync/atomic.CompareAndSwap") || strings.HasSuffix(n, ").Store") {
+					if len(x.Common().Args) > 0 {
+						if _, f, _ := p.fieldAddr(x.Common().Args[0]); f == "closed" {
+							sets = append(sets, in)
+						}
+					}
+				}
+			case *ssa.Store:
+				if _, f, _ := p.fieldAddr(x.Addr); f == "closed" {
+					sets = append(sets, in)
+				}
+			}
+		}
+	}
+	if len(sets) == 0 {
+		return []gFinding{{Key: "(*readBlocker).Close sets the closed flag", Pos: p.Pos(fn.Pos()), OK: false, Detail: "no store into readBlocker.closed found"}}
+	}
+	del := map[edge]bool{}
+	for _, s := range sets {
+		for si := range s.Block().Succs {
+			del[edge{s.Block().Index, si}] = true
+		}
+	}
+	seen := reach(fn, []*ssa.BasicBlock{fn.Blocks[0]}, del, nil)
+	n := 0
+	for _, r := range p.successReturns(fn) {
+		n++
+		after := false
+		for _, s := range sets {
+			if s.Block() == r.Block() && instrIndex(s) < instrIndex(r) {
+				after = true
+			}
+		}
+		out = append(out, gFinding{Key: fmt.Sprintf("(*readBlocker).Close return#%d that can be nil has set the closed flag", n), Pos: p.Pos(r.Pos()), OK: after || !seen[r.Block().Index],
+			Detail: "Close can return nil without having set the closed flag: the compressor goroutine of an attempt that has ended keeps reading the input file the client shares between attempts, so the retry that rewound the file uploads a stream with holes in it and the server digests and signs that"})
+	}
+	return out
+}
+
+// ------------------------------------------------------------------------------ R03m
+
+// globalOrigin: the package-level variable whose value v may be: through phis and through the results
+// of module functions (to depth 2).
+func (p *Prog) globalOrigin(v ssa.Value, depth int, seen map[ssa.Value]bool) *ssa.Global {
+	v = stripConv(v)
+	if v == nil || seen[v] || depth > 3 {
+		return nil
+	}
+	seen[v] = true
+	switch x := v.(type) {
+	case *ssa.UnOp:
+		if x.Op == token.MUL {
+			if g, ok := x.X.(*ssa.Global); ok && p.InModule(g.Pkg.Pkg) {
+				return g
+			}
+			if a, ok := x.X.(*ssa.Alloc); ok {
+				for _, r := range *a.Referrers() {
+					if st, ok := r.(*ssa.Store); ok && st.Addr == ssa.Value(a) {
+						if g := p.globalOrigin(st.Val, depth, seen); g != nil {
+							return g
+						}
+					}
+				}
+			}
+		}
+	case *ssa.Phi:
+		for _, e := range x.Edges {
+			if g := p.globalOrigin(e, depth, seen); g != nil {
+				return g
+			}
+		}
+	case *ssa.Extract:
+		return p.globalOrigin(x.Tuple, depth, seen)
+	case *ssa.Call:
+		if sc := x.Common().StaticCallee(); sc != nil && len(sc.Blocks) > 0 && p.InModule(pkgOf(sc)) {
+			for _, r := range returnsOf(sc) {
+				for _, rv := range r.Results {
+					if _, isMap := rv.Type().Underlying().(*types.Map); !isMap {
+						continue
+					}
+					if g := p.globalOrigin(rv, depth+1, seen); g != nil {
+						return g
+					}
+				}
+			}
+		}
+	}
+	return nil
+}
+
+// sharedTablesNotWritten: on the signing paths nothing is stored into a map that may be a
+// package-level table (directly, or handed out by a helper): such a table outlives the operation,
+// so what one package adds to it turns up in the next package that is signed.
+func sharedTablesNotWritten(p *Prog, within map[*ssa.Function]bool) (out []gFinding) {
+	once := p.onceClosures()
+	for _, fn := range p.Funcs {
+		if within != nil && !within[fn] && !within[p.Outer(fn)] {
+			continue
+		}
+		if fn.Name() == "init" || strings.HasPrefix(fn.Name(), "init#") || once[fn] {
+			continue // initialisation, also when it is done lazily under a sync.Once
+		}
+		n := 0
+		for _, b := range fn.Blocks {
+			for _, in := range b.Instrs {
+				mu, ok := in.(*ssa.MapUpdate)
+				if !ok {
+					continue
+				}
+				n++
+				g := p.globalOrigin(mu.Map, 0, map[ssa.Value]bool{})
+				name := ""
+				if g != nil {
+					name = g.Name()
+				}
+				out = append(out, gFinding{Key: fmt.Sprintf("%s map store#%d goes into a map of its own", p.FName(fn), n), Pos: p.Pos(mu.Pos()), OK: g == nil,
+					Detail: "the map written here may be the package-level table " + name + " itself (it reaches this store directly or as the result of a helper): entries added while one artifact is signed stay for every later one in the same process, whose output then carries content types / entries that belong to another package"})
+			}
+		}
+	}
+	return out
+}
+
+// ------------------------------------------------------------------------------ R05s, R05t
+
+// apkNoEmptyChunk: the APK v2 content digest is over consecutive chunks of at most 1 MiB; a section
+// whose length is a multiple of the chunk size ends with a full chunk, not with an additional empty
+// one. Wherever the hasher emits the partial buffer (a chunk of h.n bytes) it has tested h.n != 0.
+func apkNoEmptyChunk(p *Prog) (out []gFinding) {
+	n := 0
+	for _, fn := range p.pkgFuncs("signers/apk") {
+		for _, ci := range p.callsIn(fn, "(*signers/apk.merkleHasher).block") {
+			sl, ok := ci.Common().Args[1].(*ssa.Slice)
+			if !ok || sl.High == nil {
+				continue
+			}
+			if _, f, _ := p.fieldLoad(sl.High); f != "n" {
+				continue
+			}
+			n++
+			g := Guard{Name: "h.n != 0", Match: func(f Fact) bool {
+				bo, ok := f.V.(*ssa.BinOp)
+				if !ok {
+					return false
+				}
+				var other ssa.Value
+				if _, fl, _ := p.fieldLoad(bo.X); fl == "n" {
+					other = bo.Y
+				} else if _, fl, _ := p.fieldLoad(bo.Y); fl == "n" {
+					other = bo.X
+				} else {
+					return false
+				}
+				if k, ok := constInt(other); !ok || k != 0 {
+					return false
+				}
+				switch bo.Op {
+				case token.NEQ, token.GTR, token.LSS:
+					return f.Kind == IsTrue
+				case token.EQL, token.LEQ, token.GEQ:
+					return f.Kind == IsFalse
+				}
+				return false
+			}}
+			missing, path := p.unguardedFromEntry(fn, ci, g)
+			out = append(out, gFinding{Key: fmt.Sprintf("%s emits the partial buffer#%d only when it holds bytes", p.FName(fn), n), Pos: p.Pos(ci.Pos()), OK: len(missing) == 0, Path: path,
+				Detail: "the buffered bytes are emitted as a chunk without a test that there are any: a section whose length is an exact multiple of 1 MiB gets an additional empty chunk (0xa5, length 0), the chunk count and the top-level digest differ from what the APK Signature Scheme v2 prescribes, and every other verifier rejects what relic (whose verifier shares the hasher) accepts"})
+		}
+	}
+	if n == 0 {
+		out = append(out, gFinding{Key: "apk merkle hasher emits its partial buffer", Pos: "-", OK: false, Detail: "no call of merkleHasher.block with buf[:n] found"})
+	}
+	return out
+}
+
+// pePageSizeFromMachine: Authenticode page hashes are over the pages of the machine the image is
+// for: 4096 bytes, 8192 on Itanium and Alpha. The page size is a constant chosen by FileHeader.Machine
+// and by nothing else in the image.
+func pePageSizeFromMachine(p *Prog) (out []gFinding) {
+	n := 0
+	for _, fn := range p.pkgFuncs("lib/authenticode") {
+		for _, b := range fn.Blocks {
+			for _, in := range b.Instrs {
+				st, ok := in.(*ssa.Store)
+				if !ok {
+					continue
+				}
+				if tn, f, _ := p.fieldAddr(st.Addr); f != "pageSize" || !strings.HasSuffix(tn, "peHeaderValues") {
+					continue
+				}
+				n++
+				k, isC := constInt(st.Val)
+				okv := isC && (k == 4096 || k == 8192)
+				why := "the value stored is not one of the constants 4096 and 8192"
+				if okv && k == 8192 {
+					// reached only through comparisons of Machine with the 8 KiB architectures
+					del := map[edge]bool{}
+					for _, bb := range fn.Blocks {
+						ifi, ok := bb.Instrs[len(bb.Instrs)-1].(*ssa.If)
+						if !ok {
+							continue
+						}
+						for si, truth := range []bool{true, false} {
+							for _, f := range factsOf(ifi.Cond, truth) {
+								cmp, ok := f.V.(*ssa.BinOp)
+								if !ok || cmp.Op != token.EQL || f.Kind != IsTrue {
+									continue
+								}
+								for _, pair := range [][2]ssa.Value{{cmp.X, cmp.Y}, {cmp.Y, cmp.X}} {
+									if _, fl, _ := p.fieldLoad(pair[0]); fl == "Machine" {
+										if m, ok := constInt(pair[1]); ok && (m == 0x200 || m == 0x184 || m == 0x284) {
+											del[edge{bb.Index, si}] = true
+										}
+									}
+								}
+							}
+						}
+					}
+					if reach(fn, []*ssa.BasicBlock{fn.Blocks[0]}, del, nil)[b.Index] {
+						okv = false
+						why = "8192 is chosen on a path that has not found the machine to be Itanium (0x200) or Alpha (0x184, 0x284)"
+					}
+				}
+				out = append(out, gFinding{Key: fmt.Sprintf("%s page size#%d is the machine's", p.FName(fn), n), Pos: p.Pos(st.Pos()), OK: okv,
+					Detail: "the page size used for the page hash table is not the constant the machine type prescribes (" + why + "): a table built over pages of another size (the image's SectionAlignment, say) is self-consistent for relic's verifier and is not the table Windows recomputes"})
+			}
+		}
+	}
+	if n < 2 {
+		out = append(out, gFinding{Key: "authenticode page size assignments", Pos: "-", OK: false, Detail: fmt.Sprintf("%d stores into peHeaderValues.pageSize found, expected the 4096 and the 8192 one", n)})
+	}
+	return out
+}
+
+// ------------------------------------------------------------------------------ R13g, R13h
+
+// boundedCopiesChecked: on the paths of PatchSet.Apply a copy that has to deliver a known number of
+// bytes reports a source that ends early: it is made with io.CopyN, or, when it goes through an
+// io.LimitReader, the number of bytes copied is looked at. io.Copy over a LimitReader returns nil
+// for a short source, and the truncated result would be committed.
+func boundedCopiesChecked(p *Prog, within map[*ssa.Function]bool) (out []gFinding) {
+	for _, fn := range p.Funcs {
+		if within != nil && !within[fn] && !within[p.Outer(fn)] {
+			continue
+		}
+		n := 0
+		for _, ci := range p.callsIn(fn, "io.Copy", "io.CopyBuffer") {
+			src := stripConv(ci.Common().Args[1])
+			lim := false
+			if c, ok := src.(*ssa.Call); ok && p.calleeName(c.Common()) == "io.LimitReader" {
+				lim = true
+			}
+			if a, ok := src.(*ssa.Alloc); ok && strings.HasSuffix(a.Type().String(), "io.LimitedReader") {
+				lim = true
+			}
+			if !lim {
+				continue
+			}
+			n++
+			used := false
+			if call, ok := ci.(*ssa.Call); ok {
+				for _, r := range *call.Referrers() {
+					if ex, ok := r.(*ssa.Extract); ok && ex.Index == 0 && valueIsUsed(ex, map[ssa.Value]bool{}) {
+						used = true
+					}
+				}
+			}
+			out = append(out, gFinding{Key: fmt.Sprintf("%s bounded copy#%d notices a short source", p.FName(fn), n), Pos: p.Pos(ci.Pos()), OK: used,
+				Detail: "a fixed number of bytes is copied through an io.LimitReader and the count that came out is not looked at: when the input is shorter than it was when the patch was made the copy returns nil, the pieces that follow are written at the wrong place and a truncated file is renamed over the destination (io.CopyN reports io.EOF instead)"})
+		}
+	}
+	return out
+}
+
+// inPlaceOnlyForTheSameName: the input is opened for writing, and handed on as the output, only
+// when the output path is the input path as a string. Any other notion of "the same file" (SameFile
+// on hard links and symbolic links) makes relic edit a file the caller named as input only.
+func inPlaceOnlyForTheSameName(p *Prog) (out []gFinding) {
+	strEq := func(fn *ssa.Function) Guard {
+		return Guard{Name: "the two names are equal", Match: func(f Fact) bool {
+			bo, ok := f.V.(*ssa.BinOp)
+			if !ok || !((bo.Op == token.EQL && f.Kind == IsTrue) || (bo.Op == token.NEQ && f.Kind == IsFalse)) {
+				return false
+			}
+			isStr := func(v ssa.Value) bool {
+				b, ok := v.Type().Underlying().(*types.Basic)
+				return ok && b.Kind() == types.String
+			}
+			if !isStr(bo.X) || !isStr(bo.Y) {
+				return false
+			}
+			if _, isK := bo.X.(*ssa.Const); isK {
+				return false
+			}
+			if _, isK := bo.Y.(*ssa.Const); isK {
+				return false
+			}
+			return true
+		}}
+	}
+	if fn := p.Func("cmdline/shared.OpenForPatching"); fn == nil {
+		out = append(out, gFinding{Key: "shared.OpenForPatching", Pos: "-", OK: false, Detail: "function not found"})
+	} else {
+		n := 0
+		for _, ci := range p.callsIn(fn, "os.OpenFile") {
+			flags, ok := constInt(ci.Common().Args[1])
+			if ok && flags&0x3 == 0 {
+				continue // read-only
+			}
+			n++
+			missing, path := p.unguardedFromEntry(fn, ci, strEq(fn))
+			out = append(out, gFinding{Key: fmt.Sprintf("OpenForPatching opens the input for writing#%d only when it is named as the output", n), Pos: p.Pos(ci.Pos()), OK: len(missing) == 0, Path: path,
+				Detail: "the input file is opened read-write on a path that has not found the output name equal to the input name: with an output that is another name of the same file (a hard link, a symbolic link) the input is then edited in place, nothing is written to a temporary file and renamed, and an interrupted run leaves a torn file under both names"})
+		}
+		if n == 0 {
+			out = append(out, gFinding{Key: "OpenForPatching opens the input for writing", Pos: p.Pos(fn.Pos()), OK: false, Detail: "no read-write os.OpenFile found"})
+		}
+	}
+	if fn := p.Func("lib/atomicfile.WriteInPlace"); fn == nil {
+		out = append(out, gFinding{Key: "atomicfile.WriteInPlace", Pos: "-", OK: false, Detail: "function not found"})
+	} else {
+		n := 0
+		for _, r := range p.successReturns(fn) {
+			// returns that hand the source file itself on as the output
+			handsSrc := dependsOn(retVal(r, 0), func(x ssa.Value) bool {
+				pa, ok := x.(*ssa.Parameter)
+				return ok && strings.HasSuffix(pa.Type().String(), "os.File")
+			})
+			if !handsSrc {
+				continue
+			}
+			n++
+			missing, path := p.unguardedFromEntry(fn, r, strEq(fn))
+			out = append(out, gFinding{Key: fmt.Sprintf("WriteInPlace hands the source on as the output#%d only when it is named as the destination", n), Pos: p.Pos(r.Pos()), OK: len(missing) == 0, Path: path,
+				Detail: "the source file is returned as the file to write to on a path that has not found the destination name equal to the source's name: a destination that is a link to the source is then written in place instead of through a temporary file"})
+		}
+		if n == 0 {
+			out = append(out, gFinding{Key: "WriteInPlace can hand the source on as the output", Pos: p.Pos(fn.Pos()), OK: false, Detail: "no such return found"})
+		}
+	}
+	return out
+}
+
+// ------------------------------------------------------------------------------ R14l
+
+// scdConnectionSerialised: one smart-card operation is several commands on the one connection a
+// scdtoken owns (SETDATA then PKSIGN, the PIN inquiry in between). Every call from token/scdtoken
+// into lib/assuan that goes over that connection runs with the token's mutex held, so commands of
+// overlapping requests cannot interleave.
+func scdConnectionSerialised(p *Prog) (out []gFinding) {
+	n := 0
+	for _, fn := range p.pkgFuncs("token/scdtoken") {
+		if len(fn.Blocks) == 0 {
+			continue
+		}
+		// the operations of a token that is in service: exported methods of the token and key types
+		// (Open, login and List work on a connection nobody else has yet)
+		if fn.Signature.Recv() == nil || !ast.IsExported(fn.Name()) {
+			continue
+		}
+		var held map[ssa.Instruction]lockState
+		k := 0
+		for _, b := range fn.Blocks {
+			for _, in := range b.Instrs {
+				ci, ok := in.(ssa.CallInstruction)
+				if !ok {
+					continue
+				}
+				name := p.calleeName(ci.Common())
+				if !strings.Contains(name, "lib/assuan.") || !strings.HasPrefix(name, "(") {
+					continue // methods of the connection / key objects only
+				}
+				if len(ci.Common().Args) == 0 {
+					continue
+				}
+				// calls on a connection this function has just opened are not shared yet
+				if c, ok := stripConv(ci.Common().Args[0]).(*ssa.Extract); ok {
+					if _, isCall := c.Tuple.(*ssa.Call); isCall {
+						continue
+					}
+				}
+				n++
+				k++
+				if held == nil {
+					held = p.heldLocks(fn)
+				}
+				okLock := false
+				for lk := range held[in] {
+					if strings.HasSuffix(lk, "scdToken.mu") {
+						okLock = true
+					}
+				}
+				out = append(out, gFinding{Key: fmt.Sprintf("%s calls %s#%d with the token's mutex held", p.FName(fn), shortCallee(name), k), Pos: p.Pos(in.Pos()), OK: okLock,
+					Detail: "a command sequence is sent over the token's one scdaemon connection without the token's mutex: two overlapping requests interleave their SETDATA / PKSIGN commands, and a caller is answered with a signature over another request's digest"})
+			}
+		}
+	}
+	if n == 0 {
+		out = append(out, gFinding{Key: "token/scdtoken calls into lib/assuan", Pos: "-", OK: false, Detail: "none found"})
+	}
+	return out
+}
+
+// ------------------------------------------------------------------------------ R14m
+
+// durationsCarryAUnit: an integer that is not a time.Duration already (a configuration field, a
+// count) becomes one only together with a unit: the conversion is an operand of a multiplication
+// with a constant unit of at least a microsecond, or its operand is itself such a product or was
+// derived from a Duration. A bare time.Duration(n) of a number of seconds is n nanoseconds.
+func durationsCarryAUnit(p *Prog, within map[*ssa.Function]bool) (out []gFinding) {
+	isDur := func(t types.Type) bool { return types.TypeString(t, nil) == "time.Duration" }
+	for _, fn := range p.Funcs {
+		if within != nil && !within[fn] && !within[p.Outer(fn)] {
+			continue
+		}
+		n := 0
+		for _, b := range fn.Blocks {
+			for _, in := range b.Instrs {
+				cv, ok := in.(*ssa.Convert)
+				if !ok || !isDur(cv.Type()) || isDur(cv.X.Type()) {
+					continue
+				}
+				if _, isK := cv.X.(*ssa.Const); isK {
+					continue
+				}
+				bt, ok := cv.X.Type().Underlying().(*types.Basic)
+				if !ok || bt.Info()&types.IsInteger == 0 {
+					continue // floats: computed fractions of a duration
+				}
+				// the operand was derived from a Duration (arithmetic on nanoseconds), or from a clock / random source
+				if dependsOn(cv.X, func(x ssa.Value) bool {
+					if x == ssa.Value(cv) {
+						return false
+					}
+					if isDur(x.Type()) {
+						return true
+					}
+					if c, ok := x.(*ssa.Call); ok {
+						nm := p.calleeName(c.Common())
+						return strings.HasPrefix(nm, "math/rand.") || strings.HasPrefix(nm, "(*math/rand.") || strings.HasPrefix(nm, "(time.")
+					}
+					return false
+				}) {
+					continue
+				}
+				n++
+				unit := false
+				refs := cv.Referrers()
+				if refs != nil {
+					for _, r := range *refs {
+						if bo, ok := r.(*ssa.BinOp); ok && bo.Op == token.MUL {
+							for _, side := range []ssa.Value{bo.X, bo.Y} {
+								if k, ok := constInt(side); ok && k >= 1000 {
+									unit = true
+								}
+							}
+						}
+					}
+				}
+				out = append(out, gFinding{Key: fmt.Sprintf("%s duration#%d from an integer carries a unit", p.FName(fn), n), Pos: p.Pos(cv.Pos()), OK: unit,
+					Detail: "an integer that is not a Duration is converted with time.Duration(n) and the result is not multiplied by a unit: a configured number of seconds becomes that many nanoseconds, so the wait or deadline it feeds ends at once"})
+			}
+		}
+	}
+	return out
+}
+
+// ------------------------------------------------------------------------------ R17s, R17t, R17u
+
+// readAtFills: an io.ReaderAt returns fewer bytes than asked for only together with an error. A
+// ReadAt method that hands back the result of one plain Read of a stream returns short counts with
+// a nil error whenever the stream delivers in pieces, and callers that ignore the count (as the
+// contract allows) use a partly filled buffer.
+func readAtFills(p *Prog) (out []gFinding) {
+	n := 0
+	for _, fn := range p.Funcs {
+		if fn.Name() != "ReadAt" || fn.Signature.Recv() == nil || len(fn.Params) != 3 || len(fn.Blocks) == 0 {
+			continue
+		}
+		bufPar := fn.Params[1]
+		if _, ok := bufPar.Type().Underlying().(*types.Slice); !ok {
+			continue
+		}
+		n++
+		bad := ""
+		for _, b := range fn.Blocks {
+			for _, in := range b.Instrs {
+				call, ok := in.(*ssa.Call)
+				if !ok {
+					continue
+				}
+				cc := call.Common()
+				name := ""
+				var args []ssa.Value
+				if cc.IsInvoke() {
+					name, args = cc.Method.Name(), cc.Args
+				} else if sc := cc.StaticCallee(); sc != nil && sc.Signature.Recv() != nil && len(cc.Args) > 0 {
+					name, args = sc.Name(), cc.Args[1:]
+				}
+				if name != "Read" || len(args) != 1 || !dependsOnNoCallArgs(args[0], func(x ssa.Value) bool { return x == ssa.Value(bufPar) }) {
+					continue
+				}
+				// the count of this single Read is what the method returns
+				for _, r := range returnsOf(fn) {
+					if dependsOn(retVal(r, 0), func(x ssa.Value) bool {
+						ex, ok := x.(*ssa.Extract)
+						return ok && ex.Tuple == ssa.Value(call) && ex.Index == 0
+					}) {
+						// unless the read sits in a loop that goes on until the buffer is full
+						if !reachableAfter(fn, call, call, nil, nil) {
+							bad = p.Pos(call.Pos())
+						}
+					}
+				}
+			}
+		}
+		out = append(out, gFinding{Key: p.FName(fn) + " fills the buffer or fails", Pos: p.Pos(fn.Pos()), OK: bad == "",
+			Detail: "ReadAt returns the count of a single Read of the underlying stream (" + bad + "): a stream that delivers in pieces (a pipe, a network body) gives a short count with a nil error, which io.ReaderAt forbids; readers of fixed-size records that do not look at the count then parse a partly filled buffer - spurious descriptor errors or a wrong CRC and size on valid archives"})
+	}
+	if n == 0 {
+		out = append(out, gFinding{Key: "ReadAt implementations of the module", Pos: "-", OK: false, Detail: "none found (zipslicer.streamReaderAt had one)"})
+	}
+	return out
+}
+
+// viewsNotAppendedTo: a []byte field that is filled with a two-index slice of a larger buffer is a
+// view: its spare capacity is the bytes that follow it in that buffer. Appending to such a field
+// writes into them. In lib/zipslicer the name, extra and comment of a member are views into the
+// directory buffer, lying one behind the other.
+func viewsNotAppendedTo(p *Prog, pkgRel string) (out []gFinding) {
+	type fkey struct{ tn, f string }
+	views := map[fkey]string{}
+	fns := p.pkgFuncs(pkgRel)
+	for _, fn := range fns {
+		for _, b := range fn.Blocks {
+			for _, in := range b.Instrs {
+				st, ok := in.(*ssa.Store)
+				if !ok {
+					continue
+				}
+				tn, f, _ := p.fieldAddr(st.Addr)
+				if tn == "" {
+					continue
+				}
+				sl, ok := stripConv(st.Val).(*ssa.Slice)
+				if !ok || sl.Max != nil || (sl.High == nil) {
+					continue
+				}
+				if _, isByteSlice := sl.Type().Underlying().(*types.Slice); !isByteSlice {
+					continue
+				}
+				// a slice of a freshly made buffer of exactly that size is not a view of anything else
+				if _, fresh := sl.X.(*ssa.MakeSlice); fresh {
+					continue
+				}
+				views[fkey{strings.TrimPrefix(tn, "*"), f}] = p.Pos(st.Pos())
+			}
+		}
+	}
+	n := 0
+	for _, fn := range fns {
+		for _, b := range fn.Blocks {
+			for _, in := range b.Instrs {
+				call, ok := in.(*ssa.Call)
+				if !ok {
+					continue
+				}
+				if bi, ok := call.Call.Value.(*ssa.Builtin); !ok || bi.Name() != "append" {
+					continue
+				}
+				tn, f, _ := p.fieldLoad(call.Call.Args[0])
+				if tn == "" {
+					continue
+				}
+				at, isView := views[fkey{strings.TrimPrefix(tn, "*"), f}]
+				if !isView {
+					continue
+				}
+				n++
+				out = append(out, gFinding{Key: fmt.Sprintf("%s appends to the view %s.%s#%d", p.FName(fn), shortCallee(tn), f, n), Pos: p.Pos(call.Pos()), OK: false,
+					Detail: "append to a field that is a two-index slice of a larger buffer (filled at " + at + "): the appended bytes land in the buffer behind it - for a directory entry that is the member's comment (and the next entry), which is then written out overwritten"})
+			}
+		}
+	}
+	out = append(out, gFinding{Key: pkgRel + " never appends to a field that is a view into a larger buffer", Pos: "-", OK: n == 0, Detail: fmt.Sprintf("%d view fields, %d appends to them", len(views), n)})
+	return out
+}
+
+// sumsWidenedFirst: two length fields decoded from a record are added in a type wide enough for the
+// sum: an addition of two 8- or 16-bit unsigned values whose result is converted to a wider type was
+// computed in the narrow type and has already wrapped.
+func sumsWidenedFirst(p *Prog) (out []gFinding) {
+	narrow := func(t types.Type) int {
+		b, ok := t.Underlying().(*types.Basic)
+		if !ok {
+			return 0
+		}
+		switch b.Kind() {
+		case types.Uint8:
+			return 8
+		case types.Uint16:
+			return 16
+		}
+		return 0
+	}
+	for _, fn := range p.Funcs {
+		n := 0
+		for _, b := range fn.Blocks {
+			for _, in := range b.Instrs {
+				cv, ok := in.(*ssa.Convert)
+				if !ok {
+					continue
+				}
+				bo, ok := cv.X.(*ssa.BinOp)
+				if !ok || (bo.Op != token.ADD && bo.Op != token.MUL) {
+					continue
+				}
+				w := narrow(bo.Type())
+				if w == 0 || intWidth(cv.Type()) <= w {
+					continue
+				}
+				if _, isK := bo.X.(*ssa.Const); isK {
+					continue
+				}
+				if _, isK := bo.Y.(*ssa.Const); isK {
+					continue
+				}
+				n++
+				out = append(out, gFinding{Key: fmt.Sprintf("%s widens sum#%d after adding", p.FName(fn), n), Pos: p.Pos(bo.Pos()), OK: false,
+					Detail: fmt.Sprintf("two %d-bit values are added in %d bits and the result is converted to a wider type afterwards: when the two lengths together reach %d the sum has wrapped, and the offset computed from it points %d bytes too early", w, w, 1<<uint(w), 1<<uint(w))})
+			}
+		}
+	}
+	out = append(out, gFinding{Key: "no sum of two narrow unsigned values is widened after the addition", Pos: "-", OK: len(out) == 0, Detail: fmt.Sprintf("%d such sums", len(out))})
+	return out
+}
+
+// ------------------------------------------------------------------------------ R16k
+
+// copyCountsNotTrusted: copy() stops at the shorter of its operands without saying so. Where the
+// number it returns is used (added up as "bytes written"), it is compared with the length of the
+// source somewhere in the function; otherwise a structure that did not fit - a CMS signature in a
+// reserved area - is cut off and the accounting says it fitted.
+func copyCountsNotTrusted(p *Prog) (out []gFinding) {
+	for _, fn := range p.Funcs {
+		// Read / ReadAt / Write hand out or take in what fits by contract and say how much that was
+		if fn.Signature.Recv() != nil && (fn.Name() == "Read" || fn.Name() == "ReadAt" || fn.Name() == "Write") {
+			continue
+		}
+		n := 0
+		for _, b := range fn.Blocks {
+			for _, in := range b.Instrs {
+				call, ok := in.(*ssa.Call)
+				if !ok {
+					continue
+				}
+				bi, ok := call.Call.Value.(*ssa.Builtin)
+				if !ok || bi.Name() != "copy" {
+					continue
+				}
+				refs := call.Referrers()
+				if refs == nil || len(*refs) == 0 {
+					continue
+				}
+				used := false
+				for _, r := range *refs {
+					if _, isDbg := r.(*ssa.DebugRef); !isDbg {
+						used = true
+					}
+				}
+				if !used {
+					continue
+				}
+				src := call.Call.Args[1]
+				n++
+				// compared with len(src) (directly, or the accumulated count with a value that depends on len(src))
+				compared := false
+				for _, bb := range fn.Blocks {
+					for _, i2 := range bb.Instrs {
+						bo, ok := i2.(*ssa.BinOp)
+						if !ok {
+							continue
+						}
+						switch bo.Op {
+						case token.EQL, token.NEQ, token.LSS, token.LEQ, token.GTR, token.GEQ:
+						default:
+							continue
+						}
+						hasN := arithDependsOn(bo.X, func(x ssa.Value) bool { return x == ssa.Value(call) }) || arithDependsOn(bo.Y, func(x ssa.Value) bool { return x == ssa.Value(call) })
+						hasLen := false
+						for _, side := range []ssa.Value{bo.X, bo.Y} {
+							if arithDependsOn(side, func(x ssa.Value) bool {
+								c, ok := x.(*ssa.Call)
+								if !ok {
+									return false
+								}
+								b2, ok := c.Call.Value.(*ssa.Builtin)
+								return ok && b2.Name() == "len" && sameBuffer(c.Call.Args[0], src)
+							}) {
+								hasLen = true
+							}
+						}
+						if hasN && hasLen {
+							compared = true
+						}
+					}
+				}
+				// the rest of the source is kept: src[n:] (a reader handing out what fits and remembering the remainder)
+				for _, bb := range fn.Blocks {
+					for _, i2 := range bb.Instrs {
+						if sl, ok := i2.(*ssa.Slice); ok && sl.Low != nil {
+							if arithDependsOn(sl.Low, func(x ssa.Value) bool { return x == ssa.Value(call) }) {
+								compared = true
+							}
+						}
+					}
+				}
+				// a copy in a loop that goes on until the source is used up compares by construction
+				if reachableAfter(fn, call, call, nil, nil) {
+					compared = true
+				}
+				out = append(out, gFinding{Key: fmt.Sprintf("%s copy count#%d is checked against the source", p.FName(fn), n), Pos: p.Pos(call.Pos()), OK: compared,
+					Detail: "the number copy() returns is used as the number of bytes placed, and nothing compares it with the length of what was to be placed: a source longer than the room left is cut off silently - a CMS signature that does not fit its reserved area is emitted truncated while the size check that should refuse it adds up only what fitted"})
+			}
+		}
+	}
+	return out
+}
+
+// ------------------------------------------------------------------------------ R20j
+
+// healthLoopAlwaysStarted: startHealthCheck starts the checker on every path on which it succeeds:
+// the loop is also what keeps the last-check time fresh, so a server without it turns unhealthy by
+// staleness after three intervals whatever its tokens do.
+func healthLoopAlwaysStarted(p *Prog) (out []gFinding) {
+	fn := p.Func("server.(*Server).startHealthCheck")
+	if fn == nil {
+		return []gFinding{{Key: "(*Server).startHealthCheck", Pos: "-", OK: false, Detail: "function not found"}}
+	}
+	var gos []ssa.Instruction
+	for _, b := range fn.Blocks {
+		for _, in := range b.Instrs {
+			if g, ok := in.(*ssa.Go); ok {
+				if sc := g.Common().StaticCallee(); sc != nil && strings.Contains(sc.Name(), "healthCheckLoop") {
+					gos = append(gos, in)
+				}
+			}
+		}
+	}
+	if len(gos) == 0 {
+		return []gFinding{{Key: "startHealthCheck starts the health loop", Pos: p.Pos(fn.Pos()), OK: false, Detail: "no `go healthCheckLoop` found"}}
+	}
+	del := map[edge]bool{}
+	for _, g := range gos {
+		for si := range g.Block().Succs {
+			del[edge{g.Block().Index, si}] = true
+		}
+	}
+	seen := reach(fn, []*ssa.BasicBlock{fn.Blocks[0]}, del, nil)
+	n := 0
+	for _, r := range p.successReturns(fn) {
+		n++
+		after := false
+		for _, g := range gos {
+			if g.Block() == r.Block() && instrIndex(g) < instrIndex(r) {
+				after = true
+			}
+		}
+		out = append(out, gFinding{Key: fmt.Sprintf("startHealthCheck success return#%d has started the health loop", n), Pos: p.Pos(r.Pos()), OK: after || !seen[r.Block().Index],
+			Detail: "startHealthCheck can succeed without having started the checker goroutine: the last-check time is then never refreshed, and /health answers 200 at first and 503 for good once three check intervals have passed, with no failed check and no disabled token"})
+	}
+	return out
+}
+
+// ------------------------------------------------------------------------------ R12p
+
+// applyBinPatchRefusesNothingItself: ApplyBinPatch turns a server reply into file changes: the only
+// ways it fails are reading the reply, binpatch.Load refusing it, and PatchSet.Apply failing. A
+// refusal made up on the way rejects patches that Load and Apply define as valid (ranges that touch).
+func applyBinPatchRefusesNothingItself(p *Prog) (out []gFinding) {
+	fn := p.Func("signers.ApplyBinPatch")
+	if fn == nil {
+		return []gFinding{{Key: "signers.ApplyBinPatch", Pos: "-", OK: false, Detail: "function not found"}}
+	}
+	allowed := map[string]bool{"io/ioutil.ReadAll": true, "io.ReadAll": true, "lib/binpatch.Load": true, "(*lib/binpatch.PatchSet).Apply": true}
+	ei := errResultIndex(fn.Signature)
+	n := 0
+	for _, r := range returnsOf(fn) {
+		rv := stripConv(retVal(r, ei))
+		if isNilConst(rv) {
+			continue
+		}
+		for _, lf := range phiLeaves(rv, nil, map[*ssa.Phi]bool{}) {
+			if isNilConst(lf.V) {
+				continue
+			}
+			n++
+			call, _ := resultOf(stripConv(lf.V))
+			name := ""
+			if call != nil {
+				name = p.calleeName(call.Common())
+			}
+			out = append(out, gFinding{Key: fmt.Sprintf("ApplyBinPatch error#%d comes from reading, loading or applying the patch", n), Pos: p.Pos(r.Pos()), OK: allowed[name],
+				Detail: "ApplyBinPatch can fail with an error that is not the result of reading the reply, of binpatch.Load or of PatchSet.Apply (" + name + describeVal(p, lf.V) + "): a check of its own between loading and applying refuses patches the patch format defines as valid - adjacent ranges that were not coalesced, the pieces of a range over 4 GiB - so a correct signature is never written"})
+		}
+	}
+	if n == 0 {
+		out = append(out, gFinding{Key: "ApplyBinPatch has error returns", Pos: p.Pos(fn.Pos()), OK: false, Detail: "none found"})
+	}
+	return out
+}
+
+// ------------------------------------------------------------------------------ R19k
+
+// snkBitLengthFromModulusBytes: the strong-name public key blob states the key size as eight times
+// the number of modulus bytes that follow it; a size taken from the position of the highest set bit
+// describes another blob than the one emitted whenever the modulus does not fill its top byte.
+func snkBitLengthFromModulusBytes(p *Prog) (out []gFinding) {
+	fn := p.Func("lib/appmanifest.PublicKeyToSnk")
+	if fn == nil {
+		return []gFinding{{Key: "appmanifest.PublicKeyToSnk", Pos: "-", OK: false, Detail: "function not found"}}
+	}
+	n := 0
+	for _, b := range fn.Blocks {
+		for _, in := range b.Instrs {
+			st, ok := in.(*ssa.Store)
+			if !ok {
+				continue
+			}
+			if _, f, _ := p.fieldAddr(st.Addr); f != "BitLength" {
+				continue
+			}
+			n++
+			fromLen := dependsOn(st.Val, func(x ssa.Value) bool {
+				bo, ok := x.(*ssa.BinOp)
+				if !ok || (bo.Op != token.MUL && bo.Op != token.SHL) {
+					return false
+				}
+				k1, ok1 := constInt(bo.X)
+				k2, ok2 := constInt(bo.Y)
+				isEight := (bo.Op == token.MUL && ((ok1 && k1 == 8) || (ok2 && k2 == 8))) || (bo.Op == token.SHL && ok2 && k2 == 3)
+				if !isEight {
+					return false
+				}
+				return dependsOn(bo, func(y ssa.Value) bool {
+					c, ok := y.(*ssa.Call)
+					if !ok {
+						return false
+					}
+					bi, ok := c.Call.Value.(*ssa.Builtin)
+					return ok && bi.Name() == "len"
+				})
+			})
+			fromBits := dependsOn(st.Val, func(x ssa.Value) bool {
+				c, ok := x.(*ssa.Call)
+				return ok && strings.HasSuffix(p.calleeName(c.Common()), ".BitLen")
+			})
+			out = append(out, gFinding{Key: fmt.Sprintf("PublicKeyToSnk BitLength#%d is eight times the modulus bytes emitted", n), Pos: p.Pos(st.Pos()), OK: fromLen && !fromBits,
+				Detail: "the key size written into the strong-name blob is not 8 x len(modulus bytes) (it comes from BitLen or from something else): for a modulus whose bit length is not a multiple of 8 the header no longer describes the bytes that follow, and the publicKeyToken computed over the blob and written into the manifest is not the token of the signing key"})
+		}
+	}
+	if n == 0 {
+		out = append(out, gFinding{Key: "PublicKeyToSnk writes the key size", Pos: p.Pos(fn.Pos()), OK: false, Detail: "no store into a BitLength field found"})
+	}
+	return out
+}
+
+// ------------------------------------------------------------------------------ R18m
+
+// msatSectorHoldsOneLess: a sector of the master table holds one entry fewer than a sector of the
+// sector table, because its last entry chains to the next one. Every quotient taken of the number of
+// master-table entries divides by (SectorSize/4 - 1).
+func msatSectorHoldsOneLess(p *Prog) (out []gFinding) {
+	n := 0
+	for _, fn := range p.pkgFuncs("lib/comdoc") {
+		for _, b := range fn.Blocks {
+			for _, in := range b.Instrs {
+				bo, ok := in.(*ssa.BinOp)
+				if !ok || bo.Op != token.QUO {
+					continue
+				}
+				// dividend depends on len(r.MSAT)
+				fromMsat := dependsOn(bo.X, func(x ssa.Value) bool {
+					c, ok := x.(*ssa.Call)
+					if !ok {
+						return false
+					}
+					bi, ok := c.Call.Value.(*ssa.Builtin)
+					if !ok || bi.Name() != "len" {
+						return false
+					}
+					_, f, _ := p.fieldLoad(c.Call.Args[0])
+					return f == "MSAT"
+				})
+				if !fromMsat {
+					continue
+				}
+				n++
+				okDiv := false
+				if sub, ok := stripIntConv(bo.Y).(*ssa.BinOp); ok && sub.Op == token.SUB {
+					if k, isC := constInt(sub.Y); isC && k == 1 {
+						okDiv = true
+					}
+				}
+				out = append(out, gFinding{Key: fmt.Sprintf("%s master-table sectors#%d are counted at one entry less per sector", p.FName(fn), n), Pos: p.Pos(bo.Pos()), OK: okDiv,
+					Detail: "the number of master-table sectors is computed by dividing by the full number of entries of a sector: the last entry of every such sector is the link to the next one, so one sector too few is allocated when the entries outside the header are an exact multiple of that number, writeMSAT drops the last table sector and the signed file cannot be opened"})
+			}
+		}
+	}
+	if n == 0 {
+		out = append(out, gFinding{Key: "lib/comdoc counts master-table sectors", Pos: "-", OK: false, Detail: "no quotient of len(MSAT) found"})
 	}
 	return out
 }
